@@ -14,13 +14,8 @@ class _Ctx:
 
 
 def main():
-    for m in sorted(pkgutil.iter_modules(props_pkg.__path__), key=lambda m: m.name):
-        mod = importlib.import_module('harness.props.' + m.name)
-        if hasattr(mod, 'translate'):
-            try:
-                print(m.name, 'translate:', mod.translate(_Ctx()))
-            except Exception as e:  # a translator failure must not stop the build of the rest
-                print(m.name, 'translate failed:', e)
+    from harness import regen
+    regen.main()
     C.coq_project_refresh()
     ok, log = C.coq_make(['-k', 'all'], timeout=3000)
     print(log[-3000:])
